@@ -56,6 +56,7 @@ const BODIES: &[&str] = &[
     "{ #[allow(unused)] let v = vec![1, 2, 3]; match v.len() { 0 => todo!(), n if n > 2 => { loop { break; } todo!() } _ => todo!() } }",
     "{ const K: u32 = 3; if K > 2 { return Err(StdError::generic_err(\"x\").into()); } Ok(Default::default()) }",
     "{ let s = \"#[sv::msg(exec)] inside a string\"; let _ = s; todo!() }",
+    "{ #![allow(unused_variables, non_snake_case)] let Unused = 1; todo!() }",
 ];
 
 fn pick<'a>(t: &mut Tape, xs: &[&'a str]) -> &'a str {
@@ -179,6 +180,11 @@ pub fn gen_contract_surface(tape: Vec<u32>) -> SurfaceCase {
     } else {
         o.both("impl Ctr {\n");
     }
+    // inner attributes belong to the item as much as outer ones
+    if t.chance(25) {
+        o.both(["#![allow(non_snake_case)]\n", "#![allow(clippy::too_many_arguments)]\n#![doc = \"inner\"]\n", "//! inner docs\n"][t.pick(3)]);
+        tags.push("inner-attribute".into());
+    }
     // members
     let mut members: Vec<&str> = vec!["new", "instantiate"];
     for _ in 0..t.pick(4) {
@@ -264,6 +270,9 @@ pub fn gen_contract_surface(tape: Vec<u32>) -> SurfaceCase {
                 if o.written.contains("fn inner") {
                     tags.push("nested-item".into());
                 }
+                if o.written.contains("#![allow(unused_variables") {
+                    tags.push("inner-attribute".into());
+                }
             }
         }
     }
@@ -287,6 +296,10 @@ pub fn gen_interface_surface(tape: Vec<u32>) -> SurfaceCase {
     }
     foreign_attrs(t, FOREIGN_ITEM_ATTRS, &mut o, &mut tags, 1);
     o.both(&format!("{}trait Iface {{\n", pick(t, &VIS[..3])));
+    if t.chance(25) {
+        o.both(["#![allow(non_snake_case)]\n", "#![allow(clippy::too_many_arguments)]\n#![doc = \"inner\"]\n", "//! inner docs\n"][t.pick(3)]);
+        tags.push("inner-attribute".into());
+    }
     let mut members: Vec<&str> = vec!["error"];
     for _ in 0..t.pick(3) {
         members.push("assoc");
